@@ -27,6 +27,10 @@ HDR = "From Dawn Require Import Label.Model Label.Run.\nOpen Scope N_scope.\n"
 
 
 ORACLE_FIELDS = {
+    "entry_crashes_generates": "project root directory, package, generates= entry on which target()/Load panicked, "
+                               "panic message",
+    "entry_crashes_sources": "project root directory, package, sources= entry on which target()/Load panicked, "
+                             "panic message",
     "generated_path_escapes_root": "project root directory (scratch; only its last two elements matter), package, "
                                    "generates= entry, OS path it was resolved to",
     "source_path_escapes_root": "project root directory, package, sources= entry, OS path it was resolved to",
@@ -100,7 +104,7 @@ def to_case(f):
 
 
 def show(f):
-    if f[0] in ("site", "linkpanic"):
+    if f[0] == "site":
         return [f[0]] + [x if x in ("ok", "err", "panic") else unhx(x).decode("latin-1") for x in f[1:]]
     return [f[0]] + [unhx(x).decode("latin-1") if x not in ("ok", "err", "panic") and not x.isdigit() or x == "-" else x
                      for x in f[1:]]
@@ -144,6 +148,23 @@ def run(ctx):
             shutil.rmtree(env2["TMPDIR"], ignore_errors=True)
     if rc != 0:
         ctx.log(o[-3000:])
+        # did the process die inside an entry of the call-site family?  (every entry is announced by a flushed `begin`)
+        cur = None
+        if os.path.exists(out3):
+            for line in open(out3):
+                f = line.rstrip("\n").split("\t")
+                if f[0] == "begin":
+                    cur = f
+                elif f[0] == "end":
+                    cur = None
+        if cur is not None:
+            ctx.violation("implementation violates C12 oracle entry_crashes (process died)",
+                          {"oracle": "entry_crashes", "inputs": [unhx(x).decode("latin-1") for x in cur[1:]],
+                           "inputs_hex": cur[1:],
+                           "inputs_meaning": "project root directory, package, the generates=/sources= entry being "
+                                             "resolved when the test process died",
+                           "output": o[-3000:]})
+            return
         ctx.violation("path harness failed to build or run against /repo (exit %d)" % rc,
                       {"theorem_or_correspondence": "C12 correspondence harness (paths)", "output": o[-3000:]}, found_input=False)
         return
@@ -152,15 +173,13 @@ def run(ctx):
     oracles = []
     dist = {}
     panics = []
-    linkpanics = []
     for p in (out1, out2, out3):
         for line in open(p):
             f = line.rstrip("\n").split("\t")
             if f[0] == "ORACLE":
                 oracles.append(f)
                 continue
-            if f[0] == "linkpanic":
-                linkpanics.append(f)
+            if f[0] in ("begin", "end"):
                 continue
             if "panic" in f:
                 panics.append(f)
@@ -176,8 +195,8 @@ def run(ctx):
                             "%d random strings (seeded); call sites: target(generates=[g]) and target(sources=[g]) on really "
                             "loaded projects at %d root directories <tmp>/<P>/<B>, g = every sequence of <= %d components over "
                             "{.., ., '', x, s, B, B-o, B2, B minus its last byte, P} with and without a leading '/', from "
-                            "packages //, //s, //s/t, + %d seeded deeper paths per root, + %d per root end to end through "
-                            "BUILD.dawn/Load; non-trivial = accepted by the implementation; distinct by full case"
+                            "packages //, //s, //s/t, + %d seeded deeper paths per root, + every single-component entry and %d sampled per root end to "
+                            "end through BUILD.dawn/Load (a panic or process death on an entry is an oracle failure); non-trivial = accepted by the implementation; distinct by full case"
                             % (maxlen, maxlen - 1, 6 if ctx.quick() else 8, nrand, site_roots, site_depth, site_nrand,
                                site_nload))
     ctx.coverage["exhaustive"] = True
@@ -193,14 +212,6 @@ def run(ctx):
                               "harness/overlay/*/zz_verif_c12*_test.go"})
     for f in panics:
         ctx.violation("implementation panics", {"case": show(f), "hex": f})
-    if linkpanics:
-        # not part of C12's statement (the path is inside the root): reported to the coordinator, noted in the evidence
-        ctx.coverage["notes_outside_property"] = {
-            "what": "Load panics in Project.link (slice bounds out of range) when a generates= entry resolves to the "
-                    "project root itself; observed, not counted against C12",
-            "count": len(linkpanics), "examples": [show(f) for f in linkpanics[:3]]}
-        ctx.log("note: %d generates= entries resolving to the root itself made Load panic in link() (outside C12)"
-                % len(linkpanics))
 
     # model evaluation inside Coq, sharded
     SITE_ROOTS.clear()
